@@ -65,6 +65,14 @@ def gen(rng, nops):
     lines.append("ADV %d" % now)
     if shared:
         lines.append("CLOOKUP c - 255")
+    if rng.random() < 0.2:
+        # bystander resolvers (for this host or another) on the same server and cache come and go
+        out = []
+        for l in lines:
+            out.append(l)
+            if l.startswith(("ADV", "DELIVER", "LATE", "NEW 0")) and rng.random() < 0.25:
+                out.append("GHOST resolver %s %s" % (rng.choice([hexs(HOST), hexs("other.local.")]), "c" if (shared and rng.random() < 0.7) else "-"))
+        lines = out
     return lines
 
 
